@@ -47,7 +47,7 @@ func (o *Obligation) smtV(withModel, skolem bool) string {
 	}
 	c := o.Fn
 	var b strings.Builder
-	b.WriteString(prelude)
+	b.WriteString(preludeFor(c))
 	for _, d := range c.te.decls {
 		b.WriteString(d)
 		b.WriteByte('\n')
